@@ -183,7 +183,7 @@ def c08_product(p: int, l0: int, l1: int, l2: int, mp: int, ml: int, fp: int, fl
     ml = pick(ml, 1, 3) if mp else 1
     fl = (l0 + 1) % 4
     with concrete():
-        ok = check(p, [l0, l1, l2], mp, [ml, 3 - ml], fp, [fl, 2], 0, 0, (p + l0 + mp) % 3)
+        ok = check(p, [l0, l1, l2], mp, [ml, 2 + (l0 % 2)], fp, [fl, 2], 0, 0, (p + l0 + mp) % 3)       # member template: 1-2 x 2-3 instantiations
     reached({"p": p, "lens": [l0, l1, l2], "mp": mp, "fp": fp} if (not ok or (p == 2 and l0 == 2 and l1 == 3)) else None)
     return ok
 
